@@ -25,6 +25,7 @@ broadcast use vstd::std_specs::hash::group_hash_axioms;
 pub type Entry = (NodeId, EdgeId);
 
 @@COLD_COMPRESSION_THRESHOLD@@
+@@DELTA_COMPACTION_THRESHOLD@@
 
 @@AdjacencyChunk@@
 // E1: the compressed form is opaque; what it holds is an uninterpreted multiset
@@ -157,6 +158,10 @@ impl ChunkedAdjacency {
     @@ChunkedAdjacency::mark_deleted@@
 
     @@ChunkedAdjacency::compact@@
+
+    @@ChunkedAdjacency::compact_if_needed@@
+
+    @@ChunkedAdjacency::clear@@
 }
 } // verus!
 fn main() {}
@@ -169,6 +174,7 @@ def build(repo):
     for n in ('NodeId', 'EdgeId'):
         u.item(ID, 'struct', n).D1(keep_derive=kd)
     u.item(SRC, 'const', 'COLD_COMPRESSION_THRESHOLD').D1()
+    u.item(SRC, 'const', 'DELTA_COMPACTION_THRESHOLD').D1()
     u.item(SRC, 'struct', 'AdjacencyChunk').D1(keep_derive=set()).V1().resub('V1', r'^struct AdjacencyChunk', 'pub struct AdjacencyChunk', flags=re.M)
     st = u.item(SRC, 'struct', 'AdjacencyList').D1(keep_derive=set()).V1().resub('V1', r'^struct AdjacencyList', 'pub struct AdjacencyList', flags=re.M)
     st.sub('E1', 'SmallVec<[(NodeId, EdgeId); 16]>', 'Vec<(NodeId, EdgeId)>')
@@ -352,6 +358,39 @@ def build(repo):
     }
     assert forall|n: NodeId| #[trigger] post.contains_key(n) implies post[n].wf() by { if n != k__ { assert(pre.contains_key(n) && post[n] == pre[n]); } }
 }''')
-    u.not_covered += ['AdjacencyList::{iter, neighbors, degree} (impl Iterator chains: the READ side is not covered)', 'ChunkedAdjacency::{neighbors, edges_from, out_degree, in_degree} (read side), compact_if_needed, clear, counters',
+    f = u.method(SRC, 'ChunkedAdjacency', 'compact_if_needed').D1()
+    f.sub('E3', 'pub fn compact_if_needed(&self)', 'pub fn compact_if_needed(&mut self)')
+    f.resub('E3', r'[ \t]*let mut lists = self\.lists\.write\(\);\n', '')
+    f.resub('E3', r'(?<![\.\w])lists\b', 'self.lists')
+    f.R32()
+    f.requires('wf', 'old(self).wf()')
+    f.ensures('wf', 'final(self).wf()')
+    f.ensures('no_entry_lost_or_duplicated', 'forall|n: NodeId| entries_of(final(self).lists@, n) =~= entries_of(old(self).lists@, n)')
+    f.body_start('proof { axiom_node_keys(); }\nlet ghost L0 = self.lists@;')
+    L = f.loop('in 0..keys__1.len()').kind('for')
+    L.invariants(('keys', 'obeys_key_model::<NodeId>() && keys__1@.no_duplicates() && (forall|k: NodeId| #[trigger] keys__1@.contains(k) <==> L0.contains_key(k))'),
+                 ('domain', 'forall|n: NodeId| #![trigger self.lists@.contains_key(n)] self.lists@.contains_key(n) == L0.contains_key(n)'),
+                 ('preserved', 'self.wf() && self.chunk_capacity == old(self).chunk_capacity && forall|n: NodeId| #![trigger entries_of(self.lists@, n)] entries_of(self.lists@, n) =~= entries_of(L0, n)'))
+    L.body_start('let ghost pre = self.lists@;\nproof { assert(keys__1@.contains(keys__1@[i__1 as int])); }')
+    L.body_end('''proof {
+    let post = self.lists@;
+    lemma_get_mut_frame(pre, post, k__);
+    assert(post.contains_key(k__) && pre.contains_key(k__));
+    assert(post[k__].wf() && post[k__].ms() =~= pre[k__].ms());
+    assert forall|n: NodeId| #![trigger entries_of(post, n)] entries_of(post, n) =~= entries_of(pre, n) by {
+        if n != k__ { assert(post.contains_key(n) == pre.contains_key(n)); if pre.contains_key(n) { assert(post[n] == pre[n]); } }
+    }
+    assert forall|n: NodeId| #[trigger] post.contains_key(n) implies post[n].wf() by { if n != k__ { assert(pre.contains_key(n) && post[n] == pre[n]); } }
+}''')
+    f = u.method(SRC, 'ChunkedAdjacency', 'clear').D1()
+    f.sub('E3', 'pub fn clear(&self)', 'pub fn clear(&mut self)')
+    f.resub('E3', r'[ \t]*let mut lists = self\.lists\.write\(\);\n', '')
+    f.resub('E3', r'(?<![\.\w])lists\b', 'self.lists')
+    f.resub_opt('E2', r'self\.(edge_count|deleted_count)\.store\(0, Ordering::Relaxed\);', r'self.\1 = 0;')
+    f.requires('wf', 'old(self).wf()')
+    f.ensures('wf', 'final(self).wf()')
+    f.ensures('empty', 'forall|n: NodeId| entries_of(final(self).lists@, n) =~= Multiset::<Entry>::empty()')
+    f.ensures('counters', 'final(self).edge_count == 0 && final(self).deleted_count == 0')
+    u.not_covered += ['AdjacencyList::{iter, neighbors, degree} (impl Iterator chains: the READ side is not covered)', 'ChunkedAdjacency::{neighbors, edges_from, out_degree, in_degree} (read side), total/active edge counters',
                       'CompressedAdjacencyChunk internals (C15 codecs; bounded cross-check in unit ADJACENCY)']
     return u
